@@ -63,7 +63,11 @@ type fnState struct {
 	tuples map[ir.Value]int // number of components of tuple-valued instructions
 	id     int
 	// named results: allocs that stand for the function's result variables
+	// (unused since the recover block is rendered explicitly)
 	resultAllocs map[*ir.Alloc]int
+	// explicit: the function has a recover block; its body runs in an inner
+	// closure and the recover block is rendered as code (see render)
+	explicit bool
 }
 
 func (g *irgo) newState(fn *ir.Function) *fnState {
@@ -243,25 +247,8 @@ func (st *fnState) declare() string {
 	for i, fv := range fn.FreeVars {
 		st.names[fv] = fmt.Sprintf("fv%d_%d", st.id, i)
 	}
-	// result allocs: the allocs loaded by the recover block, in order
-	if fn.Recover != nil {
-		k := 0
-		for _, ins := range fn.Recover.Instrs {
-			if ld, ok := ins.(*ir.Load); ok {
-				if a, ok := ld.X.(*ir.Alloc); ok {
-					st.resultAllocs[a] = k
-					k++
-				}
-			}
-		}
-		if k != 0 && k != fn.Signature.Results().Len() {
-			g.unsupported("recover block loads %d of %d results", k, fn.Signature.Results().Len())
-		}
-	}
+	st.explicit = fn.Recover != nil
 	for _, b := range fn.Blocks {
-		if b == fn.Recover {
-			continue
-		}
 		for _, ins := range b.Instrs {
 			v, ok := ins.(ir.Value)
 			if !ok {
@@ -425,6 +412,11 @@ func (st *fnState) instr(ins ir.Instruction) string {
 			if !own {
 				g.unsupported("defer onto another function's defer stack")
 			}
+		}
+		if st.explicit {
+			// the probe runs right after this deferred call and notes a
+			// panic that is still in flight (see render)
+			return "defer irProbe(&irSaw); defer " + st.call(ins.Common())
 		}
 		return "defer " + st.call(ins.Common())
 	case *ir.ChangeType, *ir.Convert, *ir.ChangeInterface, *ir.MakeInterface:
@@ -642,66 +634,138 @@ func (st *fnState) render() string {
 	}
 	var sb strings.Builder
 	sb.WriteString(st.declare())
+	if !st.explicit {
+		for _, b := range fn.Blocks {
+			st.renderBlock(&sb, b, b.Instrs, true)
+		}
+		return sb.String()
+	}
+	// A function with a recover block. go/ir's meaning: Defer pushes a call,
+	// RunDefers runs the pushed calls, a panic runs them too, and if one of
+	// them recovers, control continues at the recover block. Rendering: the
+	// body runs in an inner closure whose Go defers are the pushed calls;
+	// reaching RunDefers leaves the closure (which runs them); afterwards
+	// the rest of that block runs if no panic was seen, else the recover
+	// block. irProbe (deferred before every pushed call, so it runs right
+	// after it) notes a panic raised while the pushed calls run.
+	sb.WriteString("\tirNormal, irSaw, irExit := false, false, 0\n\t_, _, _ = irNormal, irSaw, irExit\n")
+	sb.WriteString("\tfunc() {\n")
+	type cont struct {
+		b    *ir.BasicBlock
+		rest []ir.Instruction
+	}
+	var conts []cont
 	for _, b := range fn.Blocks {
 		if b == fn.Recover {
-			continue // reached only through the run-time's recovery, which Go performs itself
+			continue
+		}
+		cut := -1
+		for i, ins := range b.Instrs {
+			if _, ok := ins.(*ir.RunDefers); ok {
+				cut = i
+				break
+			}
+		}
+		if cut < 0 {
+			for _, ins := range b.Instrs {
+				if _, ok := ins.(*ir.Return); ok {
+					g.unsupported("return without RunDefers in a function with a recover block")
+				}
+			}
+			st.renderBlock(&sb, b, b.Instrs, true)
+			continue
+		}
+		st.renderBlock(&sb, b, b.Instrs[:cut], true)
+		conts = append(conts, cont{b, b.Instrs[cut+1:]})
+		fmt.Fprintf(&sb, "\tirNormal, irExit = true, %d\n\treturn\n", len(conts))
+	}
+	sb.WriteString("\t}()\n")
+	if len(conts) > 0 {
+		sb.WriteString("\tif irNormal && !irSaw {\n\t\tswitch irExit {\n")
+		for i := range conts {
+			fmt.Fprintf(&sb, "\t\tcase %d:\n\t\t\tgoto irCont%d_%d\n", i+1, st.id, i+1)
+		}
+		sb.WriteString("\t\t}\n\t}\n")
+	}
+	fmt.Fprintf(&sb, "\tgoto irRecover%d\n", st.id)
+	for i, c := range conts {
+		fmt.Fprintf(&sb, "irCont%d_%d:\n", st.id, i+1)
+		for _, ins := range c.rest {
+			switch ins.(type) {
+			case *ir.Jump, *ir.If, *ir.ConstantSwitch:
+				g.unsupported("control flow after RunDefers")
+			}
+		}
+		st.renderBlock(&sb, c.b, c.rest, false)
+	}
+	fmt.Fprintf(&sb, "irRecover%d:\n", st.id)
+	st.renderBlock(&sb, fn.Recover, fn.Recover.Instrs, false)
+	return sb.String()
+}
+
+// renderBlock renders the given instructions of block b, preceded by the
+// block's label if label is set and the block has predecessors.
+func (st *fnState) renderBlock(sb *strings.Builder, b *ir.BasicBlock, instrs []ir.Instruction, label bool) {
+	fn := st.fn
+	if label {
+		if b == fn.Recover {
+			return // reached only through the run-time's recovery, which Go performs itself
 		}
 		if b.Index != 0 || len(b.Preds) > 0 {
 			if len(b.Preds) == 0 {
-				continue // unreachable
+				return // unreachable
 			}
-			fmt.Fprintf(&sb, "%s:\n", st.label(b))
+			fmt.Fprintf(sb, "%s:\n", st.label(b))
 		}
-		for _, ins := range b.Instrs {
-			switch t := ins.(type) {
-			case *ir.Phi:
-				continue
-			case *ir.Jump:
-				fmt.Fprintf(&sb, "\t%s\n", st.jump(b, 0))
-			case *ir.If:
-				fmt.Fprintf(&sb, "\tif %s { %s } else { %s }\n", st.ref(t.Cond), st.jump(b, 0), st.jump(b, 1))
-			case *ir.ConstantSwitch:
-				def := -1
-				sb.WriteString("\tswitch {\n")
-				for k, c := range t.Conds {
-					if c == nil {
-						def = k
-						continue
-					}
-					if cc, ok := c.(*ir.Const); ok && cc.Value != nil && cc.Value.Kind() == constant.Int {
-						if v, exact := constant.Int64Val(cc.Value); exact && v == -1 {
-							if _, isTS := t.Tag.(*ir.Extract); isTS {
-								def = k // the default of a type switch is encoded as index -1
-								continue
-							}
+	}
+	for _, ins := range instrs {
+		switch t := ins.(type) {
+		case *ir.Phi:
+			continue
+		case *ir.Jump:
+			fmt.Fprintf(sb, "\t%s\n", st.jump(b, 0))
+		case *ir.If:
+			fmt.Fprintf(sb, "\tif %s { %s } else { %s }\n", st.ref(t.Cond), st.jump(b, 0), st.jump(b, 1))
+		case *ir.ConstantSwitch:
+			def := -1
+			sb.WriteString("\tswitch {\n")
+			for k, c := range t.Conds {
+				if c == nil {
+					def = k
+					continue
+				}
+				if cc, ok := c.(*ir.Const); ok && cc.Value != nil && cc.Value.Kind() == constant.Int {
+					if v, exact := constant.Int64Val(cc.Value); exact && v == -1 {
+						if _, isTS := t.Tag.(*ir.Extract); isTS {
+							def = k // the default of a type switch is encoded as index -1
+							continue
 						}
 					}
-					fmt.Fprintf(&sb, "\tcase %s == %s:\n\t\t%s\n", st.ref(t.Tag), st.ref(c), st.jump(b, k))
 				}
-				if def >= 0 {
-					fmt.Fprintf(&sb, "\tdefault:\n\t\t%s\n", st.jump(b, def))
-				} else {
-					sb.WriteString("\tdefault:\n\t\tpanic(\"ir: constant switch without matching case\")\n")
-				}
-				sb.WriteString("\t}\n")
-			case *ir.Return:
-				var rs []string
-				for _, r := range t.Results {
-					rs = append(rs, st.ref(r))
-				}
-				fmt.Fprintf(&sb, "\treturn %s\n", strings.Join(rs, ", "))
-			case *ir.Unreachable:
-				sb.WriteString("\tpanic(\"ir: unreachable\")\n")
-			case *ir.Panic:
-				fmt.Fprintf(&sb, "\t%s\n", st.instr(ins))
-			default:
-				if s := st.instr(ins); s != "" {
-					fmt.Fprintf(&sb, "\t%s\n", s)
-				}
+				fmt.Fprintf(sb, "\tcase %s == %s:\n\t\t%s\n", st.ref(t.Tag), st.ref(c), st.jump(b, k))
+			}
+			if def >= 0 {
+				fmt.Fprintf(sb, "\tdefault:\n\t\t%s\n", st.jump(b, def))
+			} else {
+				sb.WriteString("\tdefault:\n\t\tpanic(\"ir: constant switch without matching case\")\n")
+			}
+			sb.WriteString("\t}\n")
+		case *ir.Return:
+			var rs []string
+			for _, r := range t.Results {
+				rs = append(rs, st.ref(r))
+			}
+			fmt.Fprintf(sb, "\treturn %s\n", strings.Join(rs, ", "))
+		case *ir.Unreachable:
+			sb.WriteString("\tpanic(\"ir: unreachable\")\n")
+		case *ir.Panic:
+			fmt.Fprintf(sb, "\t%s\n", st.instr(ins))
+		default:
+			if s := st.instr(ins); s != "" {
+				fmt.Fprintf(sb, "\t%s\n", s)
 			}
 		}
 	}
-	return sb.String()
 }
 
 // RenderFunction renders fn as a Go function named name. It returns the
@@ -724,6 +788,16 @@ func RenderFunction(pkg *types.Package, fn *ir.Function, name string) (text stri
 
 // irSupport is emitted once per rendered file.
 const irSupport = `
+// irProbe is deferred immediately before every deferred call of a rendered
+// function with a recover block, so it runs right after that call: a panic
+// still in flight is noted and passed on.
+func irProbe(saw *bool) {
+	if r := recover(); r != nil {
+		*saw = true
+		panic(r)
+	}
+}
+
 // irNextString is the meaning of go/ir's Next on a string iterator:
 // (ok, byte index, rune) and the advanced position.
 func irNextString(s string, i int) (bool, int, rune, int) {
